@@ -6,6 +6,7 @@ import (
 	"github.com/ipfs/go-cid"
 	"github.com/ipld/go-ipld-prime/codec/dagcbor"
 	"github.com/ipld/go-ipld-prime/codec/dagjson"
+	cidlink "github.com/ipld/go-ipld-prime/linking/cid"
 	"github.com/libp2p/go-libp2p/core/crypto"
 )
 
@@ -65,4 +66,42 @@ func VerifC05_VerifiesAfterRoundTrip() {
 	if back.PreviousID != nil && ad.PreviousID != nil {
 		verif_Assert(back.PreviousCid() == ad.PreviousCid(), "the previous link is preserved")
 	}
+}
+
+// C05 (the provider is a signed VALUE, kept as written): a peer ID may be
+// written in more than one way (base58, or the libp2p-key CID form). An
+// advertisement whose provider is written in the CID form is signed, encoded,
+// decoded and verified: the decoded copy carries the provider text as it was
+// written and therefore verifies.
+func VerifC05_ProviderTextIsKeptAsWritten() {
+	k := c05newKey()
+	provider := []string{"1tuE", "bafzaaavkae"}[verif_Choose("providerWrittenAs", 0, 1)] // one identity, base58 and CID form
+	c, cerr := cid.Cast([]byte{0x01, 0x55, 0x00, 0x01, 0x07})
+	verif_Assume(cerr == nil)
+	ad := &Advertisement{Provider: provider, Entries: cidlink.Link{Cid: c}, Addresses: []string{"/ip4/1.2.3.4/tcp/5"}, Metadata: []byte{0x80, 0x12}, ContextID: []byte("ctx")}
+	verif_Assert(ad.Sign(k.priv) == nil, "signing succeeds")
+	id, verr := ad.VerifySignature()
+	verif_Assert(verr == nil && id == k.id, "the signed advertisement verifies")
+	node, err := ad.ToNode()
+	verif_Assume(err == nil)
+	var buf bytes.Buffer
+	codec := uint64(cid.DagCBOR)
+	if verif_Bool("dagJSON") {
+		codec = cid.DagJSON
+		err = dagjson.Encode(node, &buf)
+	} else {
+		err = dagcbor.Encode(node, &buf)
+	}
+	verif_Assume(err == nil)
+	ac, serr := cid.Prefix{Version: 1, Codec: codec, MhType: 0x12, MhLength: -1}.Sum(buf.Bytes())
+	verif_Assume(serr == nil)
+	back, berr := BytesToAdvertisement(ac, buf.Bytes())
+	verif_Reach("decoded")
+	verif_Assert(berr == nil, "the encoding decodes")
+	if berr != nil {
+		return
+	}
+	verif_Assert(back.Provider == provider, "the provider text is a signed value: it comes back as it was written")
+	id2, verr2 := back.VerifySignature()
+	verif_Assert(verr2 == nil && id2 == k.id, "the decoded advertisement verifies")
 }
